@@ -1,6 +1,7 @@
 import RModel.Driver.Util
 import RModel.Impl.Repr
 import RModel.Impl.BSI
+import RModel.Impl.Iter
 /-! Checker state and verdict helpers shared by all command families. -/
 namespace RModel.Driver
 open RModel
@@ -17,6 +18,13 @@ structure BsiSt where
   is64 : Bool := true          -- roaring64.BSI (sign plane) vs BitSliceIndexing.BSI
   deriving Inhabited
 
+/-- L2 shadow of an iterator created by `l2it`: the modelled Go state machine (Impl/Iter.lean) -/
+inductive L2It where
+  | fwd (it : RModel.Impl.It.IntIt)
+  | rev (it : RModel.Impl.It.IntRevIt)
+  | many (it : RModel.Impl.It.ManyIt)
+  deriving Inhabited
+
 structure St where
   bm : Std.HashMap String BSet := {}          -- 32-bit bitmaps
   bm64 : Std.HashMap String BSet := {}        -- 64-bit bitmaps
@@ -26,6 +34,7 @@ structure St where
   bufLen : Std.HashMap String Nat := {}       -- byte buffers known only by length
   bsiL2 : Std.HashMap String (RModel.BSI × Bool) := {}    -- plane-level model of roaring64 BSIs (index, fixed-width?)
   zb : Std.HashMap String (String × BSet × Bool) := {}  -- protected caller-owned buffers: (kind, encoded set, alive)
+  l2it : Std.HashMap String L2It := {}        -- L2 iterator state machines running next to `it` (names created by `l2it`)
   deriving Inhabited
 
 /-- result of checking a line: `none` = agrees -/
